@@ -11,9 +11,13 @@ V (verified oracles on real outputs, no model of the C++):
     tree_layout_ok (Dialect/TreeLayout.v: iff "no two node boxes share an interior point") on the centres + dimensions;
   * LeaflessOrthoRouter / RoutingAdapter + OrthoPlanariser::planarise: planarise_ok (Dialect/PlanariseCheck.v: iff
     "ids distinct, every original node present where it was, open segments of any two result edges disjoint (crossing or
-    collinear overlap), every original edge replaced by a chain whose inner nodes are all new").
+    collinear overlap), every original edge replaced by a chain whose inner nodes are all new"); small graphs get a SECOND round on the
+    same Graph object (nodes moved by lattice offsets, routed again by a fresh router of the same kind, fresh OrthoPlanariser) and
+    the family `explicit` sets orthogonal L / Z routes with Edge::setRoute in both rounds (rows and columns of their own, bend
+    counts chosen independently per round); planarise_ok judges BOTH results against the node positions in force.
 Known findings on the unchanged tree (classifier predicates below): tree_rank_collision, planarise_short_segment,
-planarise_crossing_within_tolerance.  Routing failures inside libavoid (assertion / SIGSEGV in the nudging code, a C15 known
+planarise_crossing_within_tolerance, replanarise_after_route_lost_bends (second planarise() throws map::at after an edge's route
+became bend-free; corpus/c19_replanarise.txt).  Routing failures inside libavoid (assertion / SIGSEGV in the nudging code, a C15 known
 finding) leave nothing to planarise: counted, bounded by 20%."""
 import os, re, time, tempfile, shutil
 from fractions import Fraction
@@ -309,10 +313,53 @@ FIXED_PLAN = [
 ]
 
 
+PLAN_CORPUS = os.path.join(C.VERIF, 'corpus', 'c19_replanarise.txt')
+
+
+def parse_plan_file(path):
+    """inverse of plan_lines() for the corpus file (integer coordinates)"""
+    out, g, kind = [], None, 'corpus'
+    for line in open(path):
+        f = line.split()
+        if not f:
+            continue
+        if f[0] == '#kind':
+            kind = f[1]
+        elif f[0] == 'P':
+            n = int(f[1])
+            g = {'kind': kind, 'n': n, 'router': int(f[2]), 'buf': int(f[3]), 'pos': [(0, 0)] * n, 'dims': [(30, 30)] * n, 'edges': []}
+            if len(f) > 4 and f[4] == '2':
+                g['pos2'] = None
+            out.append(g)
+        elif g is None or f[0].startswith('#'):
+            continue
+        elif f[0] == 'n':
+            g['pos'][int(f[1])] = (int(f[2]), int(f[3])); g['dims'][int(f[1])] = (int(f[4]), int(f[5]))
+        elif f[0] == 'e':
+            g['edges'].append((int(f[1]), int(f[2])))
+        elif f[0] == 'm':
+            g.setdefault('moves', []).append((int(f[1]), int(f[2]), int(f[3])))
+        elif f[0] == 'r':
+            rts = g.setdefault('routes', [[], []])
+            v = [int(x) for x in f[4:4 + 2 * int(f[3])]]
+            r = rts[int(f[1]) - 1]
+            while len(r) <= int(f[2]):
+                r.append([])
+            r[int(f[2])] = [(v[i], v[i + 1]) for i in range(0, len(v), 2)]
+    for g in out:
+        if 'pos2' in g:
+            g['pos2'] = list(g['pos'])
+            for i, x, y in g.pop('moves', []):
+                g['pos2'][i] = (x, y)
+    return out
+
+
 def gen_plan_graphs(rng, tier):
     """connected simple graphs with node boxes that do not overlap, to be routed orthogonally and planarised.
     router 0 = LeaflessOrthoRouter (needs minimum degree 2), 1 = RoutingAdapter(OrthogonalRouting)"""
     out = list(FIXED_PLAN)
+    if os.path.exists(PLAN_CORPUS):
+        out += parse_plan_file(PLAN_CORPUS)
     N = 56 if tier == 'quick' else 400
     kinds = ['grid', 'grid', 'jitter', 'jitter', 'dense', 'complete', 'circle', 'big']
     nbig = 0
@@ -372,21 +419,122 @@ def gen_plan_graphs(rng, tier):
                 seen.add(k)
                 ses.append((a, b) if rng.chance(1, 2) else (b, a))
         buf = rng.choice([0, 0, 125])
-        out.append({'kind': kind, 'n': n, 'router': router, 'buf': buf, 'pos': pos, 'dims': dims, 'edges': ses})
+        g = {'kind': kind, 'n': n, 'router': router, 'buf': buf, 'pos': pos, 'dims': dims, 'edges': ses}
+        # second round on the SAME Graph object (layout changed, re-route with a fresh router of the same kind, re-planarise): small graphs
+        # only (routing time); moved nodes get a new lattice jitter around their cell / circle position, so that boxes still cannot overlap
+        if n <= 12 and kind != 'complete' and rng.chance(2, 3):
+            if kind == 'circle':
+                base = pos
+            else:
+                base = [(c * sp, r * sp) for c, r in cells]
+            pos2 = list(pos)
+            for i in range(n):
+                if rng.chance(1, 2):
+                    pos2[i] = (base[i][0] + 10 * rng.range(-2, 2), base[i][1] + 10 * rng.range(-2, 2))
+            if pos2 != pos:
+                g['pos2'] = pos2
+        out.append(g)
+    # explicit orthogonal routes (no router): every node in a row and a column of its own (lattice 100), every edge routed with one bend
+    # (L) or two bends (Z through a half-lattice column / row, which contains no node); second round on the same Graph object: nodes are
+    # permuted into new rows / columns and every edge gets a new explicit route (Edge::setRoute), bend counts chosen independently
+    NX = 40 if tier == 'quick' else 300
+    for it in range(NX):
+        out.append(gen_explicit_plan(rng, straighten=(it % 13 == 12)))
     return out
 
 
+def explicit_route(rng, a, b, avoid_row=None):
+    """orthogonal route between node centres a, b on rows / columns of their own: L (one bend) or Z (two bends)"""
+    (ax, ay), (bx, by) = a, b
+    kind = rng.below(4)
+    if avoid_row is not None:
+        # one of the two nodes shares its row with a third node: leave / reach it along its own column
+        if ay == avoid_row:
+            return [a, (ax, by), b]
+        return [a, (bx, ay), b]
+    if kind == 0:
+        return [a, (bx, ay), b]
+    if kind == 1:
+        return [a, (ax, by), b]
+    if kind == 2:
+        mx = 100 * rng.range(min(ax, bx) // 100, max(ax, bx) // 100 - 1) + 50
+        return [a, (mx, ay), (mx, by), b]
+    my = 100 * rng.range(min(ay, by) // 100, max(ay, by) // 100 - 1) + 50
+    return [a, (ax, my), (bx, my), b]
+
+
+def gen_explicit_plan(rng, straighten=False):
+    n = rng.range(4, 15) if rng.chance(3, 4) else rng.range(3, 6)
+    m = n + rng.below(n)
+    seen, es = set(), []
+    for _ in range(m):
+        a, b = rng.below(n), rng.below(n)
+        k = (min(a, b), max(a, b))
+        if a != b and k not in seen:
+            seen.add(k); es.append((a, b))
+    if not es:
+        es = [(0, 1)]
+
+    def place():
+        px, py = rng.shuffle(list(range(n))), rng.shuffle(list(range(n)))
+        return [(100 * px[i], 100 * py[i]) for i in range(n)]
+    pos = place()
+    mode = rng.below(3)
+    if mode == 0:
+        pos2 = place()                                   # everything moves
+    else:
+        # a subset of the nodes is permuted among its own rows and columns (rows / columns stay distinct)
+        sub = [i for i in range(n) if rng.chance(1, 2)] or [0]
+        xs, ys = rng.shuffle([pos[i][0] for i in sub]), rng.shuffle([pos[i][1] for i in sub])
+        pos2 = list(pos)
+        for j, i in enumerate(sub):
+            pos2[i] = (xs[j], ys[j])
+    g = {'kind': 'explicit', 'n': n, 'router': 2, 'buf': 0, 'pos': pos, 'dims': [(20, 20)] * n, 'edges': es}
+    shared_row = None
+    if straighten:
+        # the family of the known finding replanarise_after_route_lost_bends: in round 2 the target of edge 0 moves into the row of its
+        # source and the edge becomes bend-free (2 route points)
+        a, b = es[0]
+        pos2 = list(pos2)
+        pos2[b] = (pos2[b][0], pos2[a][1])
+        shared_row = pos2[a][1]
+        g['kind'] = 'explicit/straighten'
+    r1 = [explicit_route(rng, pos[a], pos[b]) for a, b in es]
+    r2 = []
+    for j, (a, b) in enumerate(es):
+        if straighten and j == 0:
+            r2.append([pos2[a], pos2[b]])
+        elif shared_row is not None and shared_row in (pos2[a][1], pos2[b][1]):
+            r2.append(explicit_route(rng, pos2[a], pos2[b], avoid_row=shared_row))
+        elif mode == 2 and pos2[a] == pos[a] and pos2[b] == pos[b]:
+            r2.append(r1[j])                              # untouched edge keeps its route
+        else:
+            r2.append(explicit_route(rng, pos2[a], pos2[b]))
+    g['pos2'] = pos2
+    g['routes'] = [r1, r2]
+    return g
+
+
 def plan_lines(g):
-    return (['P %d %d %d' % (g['n'], g['router'], g['buf'])] +
-            ['n %d %d %d %d %d' % (i, g['pos'][i][0], g['pos'][i][1], g['dims'][i][0], g['dims'][i][1]) for i in range(g['n'])] +
-            ['e %d %d' % e for e in g['edges']])
+    ls = (['P %d %d %d%s' % (g['n'], g['router'], g['buf'], ' 2' if g.get('pos2') else '')] +
+          ['n %d %d %d %d %d' % (i, g['pos'][i][0], g['pos'][i][1], g['dims'][i][0], g['dims'][i][1]) for i in range(g['n'])] +
+          ['e %d %d' % e for e in g['edges']])
+    if g.get('pos2'):
+        ls += ['m %d %d %d' % (i, g['pos2'][i][0], g['pos2'][i][1]) for i in range(g['n']) if g['pos2'][i] != g['pos'][i]]
+    for rnd, rts in enumerate(g.get('routes', []), 1):
+        ls += ['r %d %d %d ' % (rnd, j, len(r)) + ' '.join('%d %d' % p for p in r) for j, r in enumerate(rts)]
+    return ls
 
 
 def plan_txt(g):
-    return {'kind': g['kind'], 'nodes': g['n'], 'router': ['LeaflessOrthoRouter', 'RoutingAdapter(OrthogonalRouting)'][g['router']],
+    return {'kind': g['kind'], 'nodes': g['n'], 'router': ['LeaflessOrthoRouter', 'RoutingAdapter(OrthogonalRouting)', 'explicit routes (Edge::setRoute)'][g['router']],
             'shapeBufferDistanceIELScalar': g['buf'] / 1000.0,
             'node_centre_dims': ['%d:(%d,%d) %dx%d' % (i, g['pos'][i][0], g['pos'][i][1], g['dims'][i][0], g['dims'][i][1]) for i in range(g['n'])],
-            'edges': ['%d-%d' % e for e in g['edges']], 'harness_input': plan_lines(g)}
+            'edges': ['%d-%d' % e for e in g['edges']], 'harness_input': plan_lines(g),
+            'second_round_on_the_same_Graph': None if not g.get('pos2') else {
+                'node_centres': ['%d:(%d,%d)' % (i, g['pos2'][i][0], g['pos2'][i][1]) for i in range(g['n'])],
+                'how': 'Node::setCentre of the moved nodes, then ' + ('Edge::setRoute of the explicit routes of round 2 (harness lines "r 2 ...")' if g['router'] == 2 else
+                       'a fresh router object of the same kind records new routes (Edge::setRoute)') + ', then a fresh OrthoPlanariser(G).planarise()'}}
 
 
 def short_segments(ls):
@@ -491,13 +639,14 @@ def classify_plan_failure(ls, v):
     return ('planarise_short_segment' if 'planarise_short_segment' in kinds else 'planarise_crossing_within_tolerance'), shorts
 
 
-def plan_case_lines(k, g, ls):
+def plan_case_lines(k, g, ls, pos=None):
     """driver input for one planarise case: exact values of the dumped doubles, all multiplied by one power of two per graph so
     that they are integers (exact; a similarity of the plane, under which every clause of planarise_spec is invariant)"""
     rn = [(l.split()[1], Fraction(float(l.split()[2])), Fraction(float(l.split()[3]))) for l in ls if l.startswith('N ')]
     scale = max([1] + [x.denominator for _, a, b in rn for x in (a, b)])
     out = ['P %d' % k]
-    out += ['O %d %s %s' % (i, hexq(g['pos'][i][0] * scale), hexq(g['pos'][i][1] * scale)) for i in range(g['n'])]
+    pos = pos or g['pos']
+    out += ['O %d %s %s' % (i, hexq(pos[i][0] * scale), hexq(pos[i][1] * scale)) for i in range(g['n'])]
     out += ['F %d %d' % e for e in g['edges']]
     out += ['N %s %s %s' % (nm, hexq(a * scale), hexq(b * scale)) for nm, a, b in rn]
     out += [l for l in ls if l.startswith('E ')]
@@ -523,10 +672,20 @@ def run_planarise(res, rng, tier, tmp, drv, hist):
                   'replay': 'harness/c19_plan.cpp <file with harness_input>'})
         res.violation(d)
         return 1
+    R2 = 1000000          # checker case id of the second round of graph k: R2 + k
+    def rounds_of(k):
+        ls = cases.get(k, [])
+        if 'ROUND 2' in ls:
+            i = ls.index('ROUND 2')
+            return ls[:i], ls[i + 1:]
+        return ls, None
     df = os.path.join(tmp, 'plan_chk.txt')
     with open(df, 'w') as fh:
         for k, g in enumerate(graphs):
-            fh.write('\n'.join(plan_case_lines(k, g, cases.get(k, []))) + '\n')
+            l1, l2 = rounds_of(k)
+            fh.write('\n'.join(plan_case_lines(k, g, l1)) + '\n')
+            if l2 is not None:
+                fh.write('\n'.join(plan_case_lines(R2 + k, g, l2, g['pos2'])) + '\n')
     c_out, dt = run_driver([drv, 'plan', df])
     ph['checker_s'] = round(dt, 2)
     verdict = {}
@@ -535,22 +694,43 @@ def run_planarise(res, rng, tier, tmp, drv, hist):
         if len(f) >= 2:
             verdict[int(f[0])] = f[1:]
     nviol, samples = 0, []
+    ph.update({'second_rounds_requested': 0, 'second_rounds_planarised': 0, 'second_round_ok': 0, 'second_round_edges_same_bend_count_new_bends': 0,
+               'second_round_not_reached': 0})
+    units = []
     for k, g in enumerate(graphs):
+        l1, l2 = rounds_of(k)
+        units.append((k, g, 1, l1, None))
+        if g.get('pos2'):
+            ph['second_rounds_requested'] += 1
+            if l2 is not None:
+                units.append((k, g, 2, l2, l1))
+            else:
+                ph['second_round_not_reached'] += 1       # round 1 failed (reported for round 1) or routing failed
+    for k, g, rnd, ls, ls_prev in units:
+      if rnd == 1:
         ph['by_kind'][g['kind']] = ph['by_kind'].get(g['kind'], 0) + 1
         ph['by_router'][str(g['router'])] = ph['by_router'].get(str(g['router']), 0) + 1
         ph['max_nodes'] = max(ph['max_nodes'], g['n'])
         ph['input_edges'] += len(g['edges'])
-        ls = cases.get(k, [])
+      if True:
         rn = [l for l in ls if l.startswith('N ')]
         re_ = [l for l in ls if l.startswith('E ')]
         ph['routed_bends'] += sum(int(l.split()[3]) - 2 for l in ls if l.startswith('R '))
         ph['result_nodes'] += len(rn)
         ph['result_edges'] += len(re_)
         ph['new_nodes'] += sum(1 for l in rn if l.endswith(' 0'))
-        v = verdict.get(k, ['missing'])
+        v = verdict.get(k if rnd == 1 else R2 + k, ['missing'])
         exc = [l for l in ls if l.startswith('EXC') or l.startswith('CRASH')]
         routed = any(l.startswith('R ') for l in ls)
         bad, fp = None, None
+        lost = []
+        if rnd == 2:
+            ph['second_rounds_planarised'] += 1 if routed else 0
+            r1 = [l.split() for l in ls_prev if l.startswith('R ')]
+            r2 = [l.split() for l in ls if l.startswith('R ')]
+            # edges whose route lost ALL its bends between the rounds (>= 3 route points before, 2 now)
+            lost = ['%s-%s' % (a[1], a[2]) for a, b in zip(r1, r2) if int(a[3]) >= 3 and int(b[3]) == 2]
+            ph['second_round_edges_same_bend_count_new_bends'] += sum(1 for a, b in zip(r1, r2) if int(a[3]) >= 3 and a[3] == b[3] and a[4:] != b[4:])
         if exc and exc[0].startswith('CRASH') and not routed:
             exc = ['EXC-ROUTE process died while routing: ' + exc[0]]
         if exc and exc[0].startswith('EXC-ROUTE'):
@@ -561,8 +741,18 @@ def run_planarise(res, rng, tier, tmp, drv, hist):
             ph['routing_failed'][key] = ph['routing_failed'].get(key, 0) + 1
         elif exc:
             bad = 'OrthoPlanariser::planarise raised an assertion/exception: ' + exc[0][:300]
+            # known finding replanarise_after_route_lost_bends: std::out_of_range from map::at in the SECOND planarisation of a Graph
+            # object AND some edge's route lost all its bends between the two rounds
+            if rnd == 2 and 'map::at' in exc[0] and exc[0].startswith('EXC ') and lost:
+                fp = 'replanarise_after_route_lost_bends'
+                bad += ' (second planarisation of the same Graph object; edges whose route became bend-free since the first: %s)' % ' '.join(lost[:8])
+                ph['known_' + fp] = ph.get('known_' + fp, 0) + 1
         elif v[0] == 'ok':
             ph['ok'] += 1
+            if rnd == 2:
+                ph['second_round_ok'] += 1
+                if lost:
+                    ph['second_round_ok_although_bends_lost'] = ph.get('second_round_ok_although_bends_lost', 0) + 1
         elif v[0] == 'BAD':
             flags = dict(x.split('=') for x in v[1:5])
             what = []
@@ -584,11 +774,15 @@ def run_planarise(res, rng, tier, tmp, drv, hist):
             bad = 'no verdict from the checker (%s)' % ' '.join(v)
         if bad and (fp or nviol < 3):
             d = plan_txt(g)
-            d.update({'what': bad, 'implementation_output': ls[:3000], 'checker': ' '.join(v)[:600],
+            if rnd == 2:
+                bad = 'SECOND planarisation of the same Graph object (after nodes moved and the edges were routed again): ' + bad
+            d.update({'what': bad, 'round': rnd, 'implementation_output': ls[:3000], 'checker': ' '.join(v)[:600],
                       'replay': 'harness/c19_plan.cpp <file with harness_input>; extract/c19_driver.ml plan <O/F/N/E lines as exact rationals>'})
+            if rnd == 2:
+                d['first_round_output'] = ls_prev[:3000]
             if res.violation(d, fingerprint=fp):
                 nviol += 1
-        if k % 23 == 3 and len(samples) < 3:
+        if rnd == 1 and k % 23 == 3 and len(samples) < 3:
             samples.append({'graph': plan_txt(g), 'implementation_output': ls[:12], 'checker': v[0]})
     ph['samples'] = samples
     nfail = sum(ph['routing_failed'].values())
@@ -790,7 +984,11 @@ META = {
                   'grids, jittered grids, circles, K4-K7, dense). A source change there shows only as a checker rejecting a real output. '
                   'Known findings on the unchanged tree, each a classifier predicate in this file: tree_rank_collision (ranks rankSep apart '
                   'between centres whatever the node extents), planarise_short_segment and planarise_crossing_within_tolerance (sorting '
-                  'tolerances 0.8 / 1.0 of computeCrossings leave crossings / overlaps next to segment ends). Graphs on which libavoid fails while '
+                  'tolerances 0.8 / 1.0 of computeCrossings leave crossings / overlaps next to segment ends), replanarise_after_route_lost_bends '
+                  '(exception map::at in the second planarise() of one Graph object AND an edge whose route went from >= 3 to 2 points between the rounds). '
+                  'Second rounds: graphs <= 12 nodes are moved (new lattice jitter), routed again and planarised again on the SAME Graph object; the explicit '
+                  'family (40 / 300 graphs, 4-15 nodes) uses Edge::setRoute with L / Z routes in both rounds; both results go through planarise_ok. '
+                  'Graphs on which libavoid fails while '
                   'routing (nudging assertion or SIGSEGV at orthogonal.cpp:3206, a C15 known finding) are outside the domain (no routed graph): '
                   'counted in the evidence, the check fails if they exceed 20%. '
                   'NodeBuckets bookkeeping is abstracted to "degree = 1 now" (compared exactly); faces.cpp is not covered. '
